@@ -214,6 +214,23 @@ def make_exec(case):
         if name == 'flush':
             flush()
             return rec
+        if name == 'commit':                    # commit in the middle of the db_session; the session (and its cache) goes on
+            from pony.orm import commit
+            commit()
+            return rec
+        if name == 'restart':                   # leave the db_session (commit) and enter a new one on the same Database
+            from pony.orm import db_session
+            opts = st.spec.get('session', {})
+            try:
+                st.session.__exit__()
+            except Exception:
+                st.session = db_session(**opts)     # the failed session is over; give the generic failure path one to close
+                st.session.__enter__()
+                raise
+            st.objs.clear()
+            st.session = db_session(**opts)
+            st.session.__enter__()
+            return rec
         pk = pk_of(op[1])
         if name == 'getkw':
             a = NAMES[op[2] % len(NAMES)]
@@ -350,6 +367,7 @@ def judge(case, events, states):
     last_step = [None] * n
     commits = []                              # (step, actor, {pk: set(attrs)} written, deleted pks)
     deleted = [set() for _ in range(n)]
+    segments = []                             # finished sessions of restarted actors: (actor, reads, writes, first, last step)
 
     def fail(msg):
         if v.message is None:
@@ -369,14 +387,15 @@ def judge(case, events, states):
         if ev['outcome'] == 'blocked':
             v.classes.add('blocked')
         # --- the committed database may change only in the step of a successful commit
+        commit_step = (is_end and spec.get('end', 'commit') == 'commit') or opname in ('commit', 'restart')
+        ok_commit = commit_step and ev['outcome'] == 'ok'
         if ev['before'] != ev['after']:
-            ok_commit = is_end and ev['outcome'] == 'ok' and spec.get('end', 'commit') == 'commit'
             if not ok_commit:
                 fail('step #%d of actor %d (%s, outcome %s%s) changed the committed database from %r to %r although the '
                      'session did not commit' % (ev['step'], i, opname, ev['outcome'],
                                                  ': ' + type(ev['error']).__name__ if ev['outcome'] == 'raised' else '',
                                                  ev['before'], ev['after']))
-        if ev['outcome'] == 'ok' and not is_end:
+        if ev['outcome'] == 'ok' and not is_end and opname not in ('commit', 'restart'):
             rec = ev['value']
             for pk, a, val in rec['reads']:
                 if a in writes[i].get(pk, ()):       # reads its own pending value, not the database's
@@ -407,7 +426,7 @@ def judge(case, events, states):
                 v.classes.add('fail:' + en)
             if stale and en in ALLOWED_CONFLICT_ERRORS:
                 v.classes.add('stale_detected')
-            if stale and (opname == 'flush' or (opname == 'end' and spec.get('end', 'commit') == 'commit')):
+            if stale and (opname == 'flush' or commit_step):
                 if en not in ALLOWED_CONFLICT_ERRORS and not sched.is_lock_error(e):
                     fail('actor %d: %s failed with %s (%s) while attributes it had read were changed by another session %r; '
                          'the property requires an optimistic-check or repeatable-read error'
@@ -415,8 +434,10 @@ def judge(case, events, states):
             if en in ('AssertionError', 'KeyError', 'AttributeError', 'IndexError', 'TypeError') and sched.raised_inside_pony(e):
                 v.classes.add('internal_error')
         # --- a successful commit: every UPDATE it carried must have been justified
-        if is_end and ev['outcome'] == 'ok' and spec.get('end', 'commit') == 'commit':
+        if ok_commit:
             v.classes.add('commit')
+            if not is_end:
+                v.classes.add('mid_commit' if opname == 'commit' else 'restart')
             if last_update[i]:
                 v.classes.add('commit_update')
             for pk, ustep in sorted(last_update[i].items()):
@@ -437,13 +458,23 @@ def judge(case, events, states):
                              'E[%d] (sent in step #%d, committed in step #%d) although another session had changed %s to %r meanwhile'
                              % (i, pk, a, val, rstep, pk, ustep, ev['step'], a, pre[a]))
             commits.append((ev['step'], i, {pk: set(s) for pk, s in writes[i].items()}, set(deleted[i])))
+            # the transaction is over: its row locks are gone, later UPDATEs belong to the next transaction
+            last_update[i] = {}
+            locked[i] = set()
+            if opname == 'restart':             # a new session: nothing read or written yet
+                segments.append((i, dict(reads[i]), {pk: set(x) for pk, x in writes[i].items()}, first_step[i], ev['step']))
+                reads[i], writes[i], wsteps[i], deleted[i] = {}, {}, {}, set()
+                first_step[i] = None
     # --- non-triviality: overlapping read/write sets and an interleaved commit
+    for i in range(n):
+        if first_step[i] is not None:
+            segments.append((i, reads[i], writes[i], first_step[i], last_step[i]))
     for (cstep, t, wr, dl) in commits:
-        for i in range(n):
-            if i == t or first_step[i] is None:
+        for (i, rd, wrs, s0, s1) in segments:
+            if i == t:
                 continue
-            for (pk, a), (rstep, val) in reads[i].items():
-                if (a in wr.get(pk, ()) or pk in dl) and rstep < cstep < last_step[i] and pk in writes[i]:
+            for (pk, a), (rstep, val) in rd.items():
+                if (a in wr.get(pk, ()) or pk in dl) and rstep < cstep < s1 and pk in wrs:
                     v.nontrivial = True
                     v.classes.add('conflict')
     return v
